@@ -171,6 +171,7 @@ def cases(rng, tier):
 SPEC = {
     'lean': ['C12'],
     'cases': cases,
+    'big': True,
     'stream': 'C12 sequence stream',
     'rule': 'strings over an alphabet with astral, precomposed, combining and conjoining code points and NFC-unstable singletons; slicing: all (start, end, step) ∈ [−5, 5]² × {±1, ±2, ±3} (sampled in quick; [−8, 8]² in thorough) on lists / '
             'strings / byte strings of length 0…4 (0…6), random triples in [−45, 45] on lengths ≤ 40, 1- and 2-argument '
